@@ -98,7 +98,7 @@ def _mk_group(m, n, nvec, with2d=False):
     dg["i"] = Array(m.array("i", (n,), "int64"), unit="dimensionless")
     m.distinct(dg["a"]._array)
     m.distinct(dg["i"]._array)
-    m.distinct(*[c._array for c in dg["v"]._xyz.values()])
+    m.distinct(*[c._array for c in C.vcomps(dg["v"]).values()])
     return dg
 
 
@@ -107,7 +107,7 @@ def _rows(m, member):
     from osyris import Array
     if isinstance(member, Array):
         return [tuple([t]) for t in m.vals(member._array)] if member.shape else [tuple(m.vals(member._array))]
-    cols = [m.vals(c._array) for c in member._xyz.values()]
+    cols = [m.vals(c._array) for c in C.vcomps(member).values()]
     return [tuple(col[r] for col in cols) for r in range(len(cols[0]))]
 
 
